@@ -5,10 +5,22 @@ A case is a *schedule*: a list of operations executed one after the other by the
     ["call", side, beh, wants, handled, [followup behs]]
         side (0/1) does  d = callRemote(Cmd_<beh>, n=<call id>)  — call ids are 0,1,2,… in the order the calls are made
         (follow-up calls included).  beh names the command and thereby the script of its responder at the peer:
-          ok     returns {"n": n}                      err    raises the declared error EErr(str(n))
-          fatal  raises the declared fatal FErr(str(n)) unk    raises RuntimeError (undeclared)
+          ok     returns {"n": n}                      err    raises the declared error EErr(desc(n))
+          fatal  raises the declared fatal FErr(desc(n)) unk   raises RuntimeError (undeclared)
           later  returns a Deferred (fired by a later "fire" op, or never)
           nores  the peer has no responder for this command
+        The call number n also selects legal-but-unusual VARIANTS of the same behaviour (same wire bytes unless said):
+          * desc(n) = "é"+str(n) when n % 3 == 2 (non-ASCII error description: 2 UTF-8 bytes on the wire), else str(n);
+            the declared fatal error has the non-ASCII error code b"F\xe9";
+          * odd n: the responder (or the application firing its Deferred) raises a SUBCLASS of the declared error class
+            (EErrSub / FErrSub) — the caller must still get the declared class;
+          * (n // 2) % 3 selects HOW a synchronous responder hands its result over: 0 returns / raises, 1 returns an
+            already-fired Deferred (succeed / fail; every third one a bare Failure), 2 returns a coroutine object;
+          * the commands ok / err / later / nores are SUBCLASSES of a base Command that declares the errors; the
+            subclass declares further (unused) errors of its own; fatal / unk declare theirs directly.  (A subclass that
+            also overrides `fatalErrors` is NOT used: CommandLocator's checkKnownErrors tests `key in command.fatalErrors`,
+            the subclass's own dict, so an inherited fatal error is then sent as a plain error box — the caller still
+            gets the declared class, only the connection is not dropped; not this property's subject.)
         wants=0 uses the requiresAnswer=False variant of the command (callRemote returns None).
         The user callback attached to d records the result, then makes the follow-up calls (plain calls of the given
         behaviours from the same side, synchronously inside the callback — i.e. inside _answerReceived / failAllOutgoing),
@@ -17,6 +29,8 @@ A case is a *schedule*: a list of operations executed one after the other by the
     ["dlv", side, n]          the network delivers the next (at most) n bytes in flight towards `side` in ONE dataReceived
                               call (nothing is delivered to a side whose transport is disconnecting or gone: the bytes vanish)
     ["lost", side, why]       side.connectionLost(Failure(ConnectionDone() | ConnectionLost()))   (why = "d" | "l")
+A case may carry "dbg": 1 (the run is made under defer.setDebugging(True)) and "wire": 0 (very long histories: the
+wire bytes are not part of the observable, only their number; such a case is oracle-only, not model-compared).
 
 Observable: the event log (one group per op, groups separated by `|`) followed by the final state:
     C<id> call made;  N<id> callRemote returned None;  F<id>=<outcome> the Deferred of call id fired:
@@ -29,6 +43,7 @@ Observable: the event log (one group per op, groups separated by `|`) followed b
 """
 import itertools
 
+from twisted.internet import defer
 from twisted.internet.defer import Deferred
 from twisted.internet.error import ConnectionDone, ConnectionLost
 from twisted.internet.testing import StringTransport
@@ -40,7 +55,13 @@ RULE = ("schedules of call / fire / deliver / connectionLost operations between 
         "responder behaviours x requiresAnswer x handled x follow-up calls made from inside the callback, deliveries of "
         "1..all bytes (so every box is cut at random byte boundaries), connection loss of either side (ConnectionDone / "
         "ConnectionLost) at a random point, and for short schedules connection loss injected after EVERY delivered byte; "
-        "distinct = (set of call outcomes, set of responder kinds, which sides lost, disconnecting seen, follow-ups, no-answer calls)")
+        "the call number selects variants of each behaviour: declared errors raised as a SUBCLASS of the declared class, "
+        "non-ASCII error descriptions and a non-ASCII error code, results handed over by return/raise, by an already "
+        "fired Deferred, by a bare Failure or by a coroutine, commands that INHERIT their declared errors from a base "
+        "Command; long-lived connections whose tag counter passes 0xf / 0xff / 0xfff (0xffff oracle-only) while an early "
+        "call is still unanswered; 15% of the schedules run under defer.setDebugging(True); "
+        "distinct = (set of call outcomes, set of responder kinds, which sides lost, disconnecting seen, follow-ups, "
+        "no-answer calls, hex digits of the largest tag, Deferred debugging)")
 ASSUMES = [
     "both peers are AMP instances speaking the protocol (no forged boxes): every _answer/_error box on the wire was produced "
     "by the peer's BoxDispatcher for an _ask it received",
@@ -51,6 +72,13 @@ ASSUMES = [
     "callRemote is used while connected or after connectionLost (not before makeConnection); Deferreds returned by callRemote "
     "are not cancelled and only AMP fires them; user callbacks do not raise",
     "arguments/responses are serialisable (no TooLong / BadLocalReturn), no StartTLS / ProtocolSwitchCommand",
+    "responders fail with exceptions from the Exception hierarchy whose str() encodes to UTF-8 (no lone surrogates), and do "
+    "not raise RemoteAmpError themselves; a Command subclass inheriting declared errors does not override `fatalErrors` "
+    "(checkKnownErrors consults the subclass's own dict for fatality — affects only whether the connection is dropped)",
+    "the wire form of the variants (which description is non-ASCII, the error code b'F\\xe9') is the harness's choice and is "
+    "mirrored in TwistedModel/Amp/Frame.lean (declDesc, Kind.code); how a responder hands its result over (raise / fired "
+    "Deferred / Failure / coroutine, subclass of the declared error, inherited declaration) and Deferred debugging are "
+    "invisible on the wire and in the model: the same model line must explain all of them",
     "a Deferred returned by a responder is fired at most once by the application (Deferred itself raises AlreadyCalledError "
     "otherwise), so a responder produces at most one reply box per _ask — used by no_box_without_question",
 ]
@@ -77,7 +105,10 @@ MANIFEST = {
             "nothing. Separately, for ANY state (not only reachable ones): connectionLost fires every outstanding Deferred with "
             "the reason; calls after the loss fail at once with that reason and send nothing. Liveness of answers (a reply in the pipe is eventually "
             "delivered) is the scheduler's business and not claimed. Model tied to amp.py by differential runs of two real AMP "
-            "instances over an in-memory byte network, wire bytes compared byte for byte.",
+            "instances over an in-memory byte network, wire bytes compared byte for byte; the runs include declared errors "
+            "raised as subclasses / inherited from a base Command / with non-ASCII description and code, responder results "
+            "delivered through fired Deferreds, bare Failures and coroutines, Deferred debugging, and connections on which "
+            "a side has made 16 … 5000 calls (65539 oracle-only) while an early call is still outstanding.",
     "note": "trusts Lean kernel, the hand-written model of BoxDispatcher/AMP.connectionLost/Command._doCommand (differentially "
             "tied), synchronous Deferred chains, the box parser (counted, not parsed, in the model)",
     "technique": "Lean 4 proof (inductive invariant over a small-step two-peer network semantics) + differential tie + "
@@ -103,11 +134,66 @@ class FErr(Exception):
     pass
 
 
+class EErrSub(EErr):
+    """a subclass of the declared error: still the declared error E for the peer"""
+
+
+class FErrSub(FErr):
+    """a subclass of the declared fatal error"""
+
+
+class _Other1(Exception):
+    pass
+
+
+class _Other2(Exception):
+    pass
+
+
+FCODE = b"F\xe9"      # error codes are bytes; this one is not ASCII
+
+
+def desc(n):
+    """the description of the declared error raised for call n (every third one is not ASCII)"""
+    return ("\u00e9" if n % 3 == 2 else "") + str(n)
+
+
+def _undesc(s):
+    """the call number m with desc(m) == s, as a string ("?…" when there is none)"""
+    m = s.lstrip("\u00e9")
+    return m if m.isdigit() and len(m) < 9 and desc(int(m)) == s else "?" + s.encode("ascii", "backslashreplace").decode()
+
+
+def mkexc(kind, n):
+    """the exception a responder for call n fails with"""
+    if kind == "err":
+        return (EErrSub if n % 2 else EErr)(desc(n))
+    if kind == "fatal":
+        return (FErrSub if n % 2 else FErr)(desc(n))
+    return RuntimeError("undeclared " + str(n))
+
+
+class _BaseCmd(amp.Command):
+    """the errors are declared here and inherited (accumulated) by the commands below"""
+    arguments = [(b"n", amp.Integer())]
+    response = [(b"n", amp.Integer())]
+    errors = {EErr: b"E"}
+    fatalErrors = {FErr: FCODE}
+
+
+INHERITING = ("ok", "err", "later", "nores")
+
+
 def _mk(name, wants):
+    cname = ("Cmd_" if wants else "CmdNA_") + name
+    if name in INHERITING:
+        return type(amp.Command)(
+            cname, (_BaseCmd,),
+            {"commandName": name.encode("ascii"), "errors": {_Other1: b"O1", _Other2: b"O2"}, "requiresAnswer": wants})
     return type(amp.Command)(
-        ("Cmd_" if wants else "CmdNA_") + name, (amp.Command,),
+        cname, (amp.Command,),
         {"commandName": name.encode("ascii"), "arguments": [(b"n", amp.Integer())], "response": [(b"n", amp.Integer())],
-         "errors": {EErr: b"E"}, "fatalErrors": {FErr: b"F"}, "requiresAnswer": wants})
+         "errors": {EErr: b"E"}, "fatalErrors": {FErr: FCODE}, "requiresAnswer": wants})
 
 
 CMDS = {(b, w): _mk(b, w) for b in BEHS for w in (True, False)}
@@ -118,24 +204,42 @@ class Peer(amp.AMP):
         amp.AMP.__init__(self)
         self.side, self.run = side, run
 
+    @staticmethod
+    def _hand_over(n, value=None, exc=None):
+        """a synchronous responder's result for call n, handed over in the way (n // 2) % 3 selects"""
+        how = (n // 2) % 3
+        if how == 1:
+            if exc is None:
+                return defer.succeed(value)
+            return Failure(exc) if n % 3 == 0 else defer.fail(exc)
+        if how == 2:
+            async def co():
+                if exc is not None:
+                    raise exc
+                return value
+            return co()
+        if exc is not None:
+            raise exc
+        return value
+
     def r_ok(self, n):
         self.run.log.append(f"R{self.side}:{n}:ok")
-        return {"n": n}
+        return self._hand_over(n, value={"n": n})
     CMDS["ok", True].responder(r_ok)
 
     def r_err(self, n):
         self.run.log.append(f"R{self.side}:{n}:err")
-        raise EErr(str(n))
+        return self._hand_over(n, exc=mkexc("err", n))
     CMDS["err", True].responder(r_err)
 
     def r_fatal(self, n):
         self.run.log.append(f"R{self.side}:{n}:fatal")
-        raise FErr(str(n))
+        return self._hand_over(n, exc=mkexc("fatal", n))
     CMDS["fatal", True].responder(r_fatal)
 
     def r_unk(self, n):
         self.run.log.append(f"R{self.side}:{n}:unk")
-        raise RuntimeError("undeclared " + str(n))
+        return self._hand_over(n, exc=mkexc("unk", n))
     CMDS["unk", True].responder(r_unk)
 
     def r_later(self, n):
@@ -172,10 +276,10 @@ class Run:
         rs = self.reason[side]
         if rs is not None and r.value is rs.value:
             return "L" + ("d" if isinstance(r.value, ConnectionDone) else "l")
-        if isinstance(r.value, EErr):
-            return "E" + str(r.value)
-        if isinstance(r.value, FErr):
-            return "X" + str(r.value)
+        if type(r.value) is EErr:        # the declared class itself (never the subclass the responder raised)
+            return "E" + _undesc(str(r.value))
+        if type(r.value) is FErr:
+            return "X" + _undesc(str(r.value))
         if isinstance(r.value, amp.UnknownRemoteError):
             return "U" if r.value.description == "Unknown Error" else "U?"
         if isinstance(r.value, amp.UnhandledCommand):
@@ -214,12 +318,8 @@ class Run:
                 self.log.append(f"A{n}={k}")
                 if k == "ok":
                     d.callback({"n": n})
-                elif k == "err":
-                    d.errback(Failure(EErr(str(n))))
-                elif k == "fatal":
-                    d.errback(Failure(FErr(str(n))))
                 else:
-                    d.errback(Failure(RuntimeError("undeclared " + str(n))))
+                    d.errback(Failure(mkexc(k, n)))
         elif kind == "dlv":
             side, n = o[1], o[2]
             src = 1 - side
@@ -250,7 +350,7 @@ class Run:
             d.addErrback(lambda f: None)
         return self
 
-    def final(self):
+    def final(self, wire=True):
         out = []
         for s in (0, 1):
             p = self.peers[s]
@@ -259,13 +359,18 @@ class Run:
             out.append(f"t{s}={int(p.transport is None)}")
             out.append(f"d{s}={int(bool(self.tr[s].disconnecting))}")
             out.append(f"q{s}={len(self.tr[1 - s].value()) - self.off[1 - s]}")
-            out.append(f"w{s}={self.tr[s].value().hex() or '-'}")
+            out.append(f"w{s}={self.tr[s].value().hex() or '-'}" if wire else f"w{s}=#{len(self.tr[s].value())}")
         return out
 
 
 def run_impl(c):
-    r = Run().play(c["ops"])
-    return " ".join(r.log + ["#"] + r.final())
+    old = defer.getDebugging()
+    defer.setDebugging(bool(c.get("dbg")))
+    try:
+        r = Run().play(c["ops"])
+        return " ".join(r.log + ["#"] + r.final(bool(c.get("wire", 1))))
+    finally:
+        defer.setDebugging(old)
 
 
 # ------------------------------------------------------------------------------------------------
@@ -275,6 +380,8 @@ _B = {"ok": "o", "err": "e", "fatal": "f", "unk": "u", "later": "l", "nores": "n
 
 
 def model_line(c):
+    if not c.get("wire", 1):
+        return None         # oracle-only: the history is too long to compare the wire bytes
     toks = []
     for o in c["ops"]:
         if o[0] == "call":
@@ -318,7 +425,10 @@ def oracle(c, out):
         o = ops[gi]
         # ids made by this op: the call itself and the follow-ups are announced by C tokens, in order
         cur_lost = None
-        pending_before = [i for i, ci in calls.items() if ci["wants"] and ci["fired"] is None and o[0] == "lost" and ci["side"] == o[1]]
+        pending_before = [] if o[0] != "lost" else [
+            i for i, ci in calls.items() if ci["wants"] and ci["fired"] is None and ci["side"] == o[1]]
+        new_nores = []
+        top_done = False    # the op's own call has been seen (the further C tokens of the group are follow-ups)
         j = 0
         parent = None      # the call whose callback is running (follow-up calls are made by it, from its side)
         while j < len(toks):
@@ -330,7 +440,8 @@ def oracle(c, out):
                 if i != nid:
                     return {"key": "harness", "detail": f"call ids out of order at {t}"}
                 nid += 1
-                if o[0] == "call" and parent is None and not any(ci["op"] == gi and ci["top"] for ci in calls.values()):
+                if o[0] == "call" and parent is None and not top_done:
+                    top_done = True
                     calls[i] = {"side": o[1], "beh": o[2], "wants": bool(o[3]), "fired": None, "op": gi, "top": True,
                                 "follow": list(o[5])}
                 else:
@@ -339,6 +450,8 @@ def oracle(c, out):
                     calls[i] = {"side": calls[parent]["side"], "beh": calls[parent]["todo"].pop(0), "wants": True,
                                 "fired": None, "op": gi, "top": False, "follow": []}
                 ci = calls[i]
+                if ci["beh"] == "nores":
+                    new_nores.append(i)
                 side = ci["side"]
                 nxt = toks[j + 1] if j + 1 < len(toks) else ""
                 if side in lost:
@@ -397,9 +510,9 @@ def oracle(c, out):
             j += 1
         # calls whose command has no responder: the dispatcher answers UNHANDLED when the ask is dispatched; we cannot see the
         # dispatch in the log, so record it as what the (absent) responder "produced"
-        for i, ci in calls.items():
-            if ci["beh"] == "nores":
-                produced.setdefault(i, "unhandled")
+        # (only the calls made by this op are new here: the earlier ones were recorded after their own op — long histories)
+        for i in new_nores:
+            produced.setdefault(i, "unhandled")
         if o[0] == "lost" and cur_lost is not None:
             for i in pending_before:
                 if calls[i]["fired"] != "L" + lost[cur_lost]:
@@ -455,6 +568,15 @@ def corpus():
         {"ops": [C(0, "later"), ["dlv", 1, big], ["lost", 1, "l"], ["fire", 1, 0, "fatal"], ["dlv", 0, big], ["lost", 0, "l"]]},
         # tags with two hex digits, ids with two decimal digits; byte-wise delivery
         {"ops": [C(0, "ok", 0) for _ in range(17)] + [C(0, "ok")] + [["dlv", 1, 1]] * 40 + [["dlv", 1, big]] + [["dlv", 0, 7]] * 6},
+        # every variant of every behaviour (call numbers 0..11 of each: plain / subclass, raised / fired Deferred / bare
+        # Failure / coroutine, ASCII / non-ASCII description), also through responder Deferreds, also under Deferred debugging
+        {"ops": [C(0, b) for b in ("ok", "err", "fatal") for _ in range(12)] + [["dlv", 1, big], ["dlv", 0, big]]},
+        {"ops": [C(1, "err") for _ in range(6)] + [C(1, "unk") for _ in range(6)] + both, "dbg": 1},
+        {"ops": [C(0, "later") for _ in range(12)] + [["dlv", 1, big]] + [["fire", 1, 0, "err"]] * 6 + [["fire", 1, 0, "fatal"]] * 6
+                + [["dlv", 0, big]]},
+        # the 256th / 257th call of a side while its first call is still unanswered (tags "100", "101" next to "1")
+        {"ops": [C(0, "later"), ["dlv", 1, big]] + [C(0, "ok", 0)] * 254 + [C(0, "ok"), C(0, "ok")] + both
+                + [["fire", 1, 0, "ok"]] + both},
         # follow-up inside _answerReceived, delivered in the same chunk as the next answer
         {"ops": [C(0, "ok", 1, 1, ["ok", "unk"]), C(0, "fatal", 1, 0, ["nores"])] + both + both + both},
     ]
@@ -522,8 +644,69 @@ def _cut_points(base, rng, every):
             yield {"ops": exp[:i + 1] + [["lost", s, why]] + exp[i + 1:] + [["lost", 1 - s, why]]}
 
 
+def _long(rng, k):
+    """a long-lived connection: side s makes k calls (so its _counter reaches k: tags of 2, 3, 4 hex digits) while one of
+    its first calls is still unanswered (its responder Deferred is held by the peer, or the ask was never delivered), the
+    traffic is flushed now and then, and the old call is finally answered / the connection lost"""
+    big = 10 ** 6
+    s = rng.randint(0, 1)
+    ops = []
+    made = 0
+    for _ in range(rng.randint(1, 3)):
+        ops.append(C(s, rng.choice(["later", "later", "ok", "err"]), 1, 1, [rng.choice(BEHS)] if rng.random() < 0.3 else []))
+        made += 1
+    held = rng.random() < 0.6
+    if held:
+        ops.append(["dlv", 1 - s, big])
+    every = rng.choice([40, 64, 100, 10 ** 9])
+    while made < k:
+        r = rng.random()
+        if r < 0.75:
+            ops.append(C(s, "ok", 0))
+        elif r < 0.93:
+            ops.append(C(s, rng.choice(["ok", "ok", "err", "nores"])))
+        elif r < 0.96:
+            ops.append(C(s, "later"))
+        else:
+            ops.append(C(1 - s, rng.choice(["ok", "later", "err"])))
+            made -= 1
+        made += 1
+        if made % every == 0 and held:
+            ops += [["dlv", 1 - s, big], ["dlv", s, big]]
+    # a few more calls around the boundary, then the old questions are answered (or the connection goes away)
+    ops += _rand_ops(rng, rng.choice([0, 4, 10]), False)
+    ops += [["dlv", 1 - s, big], ["fire", 1 - s, 0, rng.choice(KINDS)], ["dlv", s, big]]
+    ops += _rand_ops(rng, rng.choice([0, 6]), True)
+    end = rng.random()
+    if end < 0.5:
+        ops += _flush(2)
+    elif end < 0.8:
+        ops += [["lost", s, rng.choice("dl")], C(s, "ok"), ["lost", 1 - s, rng.choice("dl")]]
+    return {"ops": ops}
+
+
+def _huge(k):
+    """k no-answer calls behind one unanswered call, then one more call: only the bookkeeping is observed (oracle-only)"""
+    return {"ops": [C(0, "later"), ["dlv", 1, 10 ** 6]] + [C(0, "ok", 0)] * k + [C(0, "ok"), C(0, "later")]
+                   + [["fire", 1, 0, "ok"]] + _flush(1) + [["lost", 0, "d"]], "wire": 0}
+
+
 def generate(rng, tier):
+    for c in _generate(rng, tier):
+        if rng.random() < 0.15:
+            c["dbg"] = 1        # the same schedule under defer.setDebugging(True)
+        yield c
+
+
+def _generate(rng, tier):
     quick = tier == "quick"
+    # (0) long histories: the tag counter passes 0xf, 0xff, 0xfff (and 0xffff, oracle-only) with an old call outstanding
+    for k in ([15, 16, 17, 254, 255, 256, 257, 258, 300, 511, 513] * (1 if quick else 6)
+              + ([4097] if quick else [4094, 4095, 4096, 4097, 4100, 5000])):
+        yield _long(rng, k)
+    yield _huge(4096)
+    if not quick:
+        yield _huge(65536)      # 65539 calls of side 0: tags "ffff", "10000", "10001", "10002" next to the outstanding "1"
     # (1) connection loss at every byte boundary of short exchanges
     for _ in range(10 if quick else 60):
         k = rng.randint(1, 4)
@@ -557,12 +740,28 @@ def generate(rng, tier):
 
 def search(rng, tier, disagreeing):
     for c in disagreeing[:20]:
-        yield from _cut_points(c["ops"], rng, every=True)
+        if len(c["ops"]) <= 60:     # (long histories have 10^5 bytes in flight: sampled cut points only, and few of them)
+            yield from _cut_points(c["ops"], rng, every=True)
+        elif len(c["ops"]) <= 600:
+            yield from _cut_points(c["ops"], rng, every=False)
     yield from generate(rng, "thorough" if tier == "thorough" else "quick")
 
 
 def shrink(c):
-    ops = c["ops"]
+    extra = {k: v for k, v in c.items() if k != "ops"}
+    if extra:
+        yield {"ops": c["ops"]}
+    for x in _shrink_ops(c["ops"]):
+        x.update(extra)
+        yield x
+
+
+def _shrink_ops(ops):
+    if len(ops) > 60:       # long histories: cut big pieces first
+        n = len(ops)
+        for size in (n // 2, n // 4, n // 8, 16):
+            for i in range(0, n, size):
+                yield {"ops": ops[:i] + ops[i + size:]}
     for i in range(len(ops)):
         yield {"ops": ops[:i] + ops[i + 1:]}
     for i, o in enumerate(ops):
@@ -591,4 +790,7 @@ def tag(c, out):
     disc = "".join(s for s in "01" if f"d{s}=1" in fin)
     fol = "f" if any(o[0] == "call" and o[5] for o in c["ops"]) else ""
     na = "n" if any(o[0] == "call" and not o[3] for o in c["ops"]) else ""
-    return f"{'.'.join(outs)}|{'.'.join(resp)}|z{lostsides}|d{disc}|{fol}{na}"
+    ncalls = max(sum(1 for o in c["ops"] if o[0] == "call" and o[1] == sd) for sd in (0, 1)) if c["ops"] else 0
+    digits = len("%x" % ncalls) if ncalls else 0      # hex digits of the largest tag a side certainly reached
+    dbg = "g" if c.get("dbg") else ""
+    return f"{'.'.join(outs)}|{'.'.join(resp)}|z{lostsides}|d{disc}|{fol}{na}|x{digits}{dbg}"
